@@ -60,7 +60,7 @@ fn main() {
         "e3o" => {
             let only = replay.as_ref().map(|r| {
                 let o = &r["fault"]["outage"];
-                (r["case"].as_u64().unwrap(), e3o::Fault { rpc: o[0].as_u64().unwrap(), polls_down: o[1].as_u64().unwrap() as u32 })
+                (r["case"].as_u64().unwrap(), e3o::Fault { rpc: o[0].as_u64().unwrap(), polls_down: o[1].as_u64().unwrap() as u32, cut_reply: o.get(2).and_then(|b| b.as_bool()).unwrap_or(false) })
             });
             e3o::run(seed, shard, nshards, a.u64("cases", if thorough { 12 } else { 1 }), a.u64("max_faults", if thorough { 60 } else { 12 }) as usize, a.u64("parallel", 4) as usize, only, &mut rep);
         }
